@@ -275,7 +275,26 @@ func init() {
 		{"(*sync/atomic.Pointer[", "]).Store[", extAtomicPtrStore},
 		{"(*sync/atomic.Pointer[", "]).Swap[", extAtomicPtrSwap},
 		{"(*sync/atomic.Pointer[", "]).CompareAndSwap[", extAtomicPtrCAS},
+		{"unique.Make[", "]", extUniqueMake},
 	}
+}
+
+// unique.Make[T]: the real one goes through a concurrent map and weak pointers; here a handle is
+// a pointer to one canonical cell per distinct (concrete) value, so handles compare equal exactly
+// when the values do. net/netip uses it for the address family / zone of every Addr.
+func extUniqueMake(fr *frame, args []value) value {
+	i := fr.i
+	if i.uniqueCells == nil {
+		i.uniqueCells = map[string]*value{}
+	}
+	key := fr.fn.String() + "|" + fmt.Sprintf("%#v", args[0])
+	cell, ok := i.uniqueCells[key]
+	if !ok {
+		v := args[0]
+		cell = &v
+		i.uniqueCells[key] = cell
+	}
+	return structure{cell}
 }
 
 // ---- helpers over byte sequences
